@@ -40,6 +40,7 @@ type C15Plan struct {
 	RecipVia string      `json:"recip_via,omitempty"` // encrypt: "-r" | "-R" | "-i" (-e -i)
 	Armor    bool        `json:"armor,omitempty"`
 	PLen     int         `json:"plen"`
+	ZTail    int         `json:"ztail,omitempty"` // the plaintext ends in this many zero bytes
 	PSeed    uint64      `json:"pseed"`
 	Tape     uint64      `json:"tape,omitempty"`
 	InVia    string      `json:"in_via"`           // file | stdin
@@ -120,6 +121,11 @@ func (C15) Generate(r *core.RNG, tier string, idx uint64) interface{} {
 		}
 	}
 	p.PLen = r.Pick(0, 0, 1, 5, 100, 100, 4096, 65536, 65537, 140000)
+	if r.Chance(1, 6) {
+		// data that ends in zeros (or is nothing else): what a copy loop hands over last is an all-zero buffer
+		p.PLen = r.Pick(32768, 65536, 80000, 196608)
+		p.ZTail = r.Pick(4096, 40000, 65536, 1<<20)
+	}
 	p.Armor = r.Chance(1, 3)
 	p.InVia = []string{"file", "file", "stdin"}[r.Intn(3)]
 	p.OutVia = []string{"file", "file", "stdout", "stdout-file"}[r.Intn(4)]
@@ -455,7 +461,7 @@ func (e C15) one(p *C15Plan, fault OutFault, c *core.Ctx, ageBin, kgBin string, 
 		}
 		return path
 	}
-	P := core.Pattern(p.PSeed, p.PLen)
+	P := lib.FileSpec{PSeed: p.PSeed, PLen: p.PLen, ZTail: p.ZTail}.Plain()
 	var argv []string
 	var stdin []byte
 	var expected []byte               // decrypt: exact expected output
@@ -508,7 +514,7 @@ func (e C15) one(p *C15Plan, fault OutFault, c *core.Ctx, ageBin, kgBin string, 
 			return nil
 		}
 	case "decrypt":
-		spec := lib.FileSpec{PSeed: p.PSeed, PLen: p.PLen, Tape: p.Tape, Armor: p.Armor}
+		spec := lib.FileSpec{PSeed: p.PSeed, PLen: p.PLen, Tape: p.Tape, Armor: p.Armor, ZTail: p.ZTail}
 		for i := range p.Keys {
 			k := p.Keys[i]
 			spec.Recips = append(spec.Recips, lib.Recip{Key: &k})
@@ -1211,7 +1217,7 @@ func (e C15) passCase(p *C15Plan, c *core.Ctx, ageBin string) *core.Verdict {
 		return core.Fail("harness", "%v", err)
 	}
 	defer os.RemoveAll(dir)
-	P := core.Pattern(p.PSeed, p.PLen)
+	P := lib.FileSpec{PSeed: p.PSeed, PLen: p.PLen, ZTail: p.ZTail}.Plain()
 	const pass = "correct horse" // world.Passphrases[0]
 	outPath := filepath.Join(dir, "out.bin")
 	pre := []byte("PRE-EXISTING CONTENT THAT MUST SURVIVE A REFUSAL\n")
@@ -1258,7 +1264,7 @@ func (e C15) passCase(p *C15Plan, c *core.Ctx, ageBin string) *core.Verdict {
 		promptText = "Enter passphrase for"
 		typedRight = "pass-" + t + "A"
 	} else if p.Op == "decrypt-p" {
-		spec := lib.FileSpec{PSeed: p.PSeed, PLen: p.PLen, Tape: p.Tape, Armor: p.Armor, Recips: []lib.Recip{{Key: &world.Key{T: "s", K: 0, WF: 10}}}}
+		spec := lib.FileSpec{PSeed: p.PSeed, PLen: p.PLen, Tape: p.Tape, Armor: p.Armor, ZTail: p.ZTail, Recips: []lib.Recip{{Key: &world.Key{T: "s", K: 0, WF: 10}}}}
 		img, _ := lib.MustEncrypt(spec)
 		os.WriteFile(filepath.Join(dir, "in.age"), img, 0o600)
 		argv = []string{ageBin, "-d", "-o", outPath, filepath.Join(dir, "in.age")}
